@@ -159,6 +159,26 @@ Theorem pool_fair_schedule_finishes_continue :
 Proof. exact fair_schedule_continue. Qed.
 Print Assumptions pool_fair_schedule_finishes_continue.
 
+(** the same without letting the producer run ahead: 3|jobs|+3 blocks, every agent occurs in
+    every block (plain round-robin over all agents, lock-step of an unbuffered channel, ...) *)
+Theorem pool_fair_blocks_finish :
+  forall (job res err : Type) (f : job -> res) (fails : job -> bool) (e_of : job -> err)
+         (on_fail : fail_mode) (jobs : list job) (n : nat) (blocks : list (list nat)),
+    (forall b, In b blocks -> In 0 b /\ forall k, k < n -> In (S k) b) ->
+    3 * length jobs + 3 <= length blocks ->
+    finished (run f fails e_of on_fail true (concat blocks) (init jobs n)) = true.
+Proof. exact fair_blocks_done. Qed.
+Print Assumptions pool_fair_blocks_finish.
+
+Theorem pool_fair_blocks_finish_continue :
+  forall (job res err : Type) (f : job -> res) (fails : job -> bool) (e_of : job -> err)
+         (done_on_exit : bool) (jobs : list job) (n : nat) (blocks : list (list nat)),
+    (forall b, In b blocks -> In 0 b /\ forall k, k < n -> In (S k) b) ->
+    3 * length jobs + 3 <= length blocks ->
+    finished (run f fails e_of Continue done_on_exit (concat blocks) (init jobs n)) = true.
+Proof. exact fair_blocks_continue. Qed.
+Print Assumptions pool_fair_blocks_finish_continue.
+
 (** * T6 the defect pattern: Stop and a return path without wg.Done().
     If the first job is erroneous, the prefix "send it, worker 0 receives it, worker 0 returns"
     makes every continuation hang (wg.Wait() never returns), for every n >= 1 *)
